@@ -436,6 +436,9 @@ type worldCfg struct {
 	// whether it must be rejected)
 	ErrorsSpeculative bool
 	GetKeys           bool // invariant GetItem of every pool key
+	// KeyMutSpeculative: updates that target a key attribute (open finding
+	// F-KEYMUT) are sent speculatively instead of being skipped (C08)
+	KeyMutSpeculative bool
 }
 
 type world struct {
@@ -484,19 +487,29 @@ func (w *world) do(op model.Op) (model.Result, int, *failure) {
 		// cannot follow this world any further
 		return model.Result{}, stepGuarded, nil
 	}
+	// keyMut: the only open finding the request touches is F-KEYMUT (an update
+	// that targets a key attribute, which DynamoDB rejects and the library
+	// accepts). Where the world speculates (C08) the request is sent all the
+	// same: whatever the implementation answers, a refusal must leave no trace.
+	keyMut := false
 	if ids := guardOp(op, w.m, w.cfg.V2); len(ids) > 0 {
-		for _, id := range ids {
-			stats.For(w.prop).Exclude(id)
+		if w.cfg.Speculate && w.cfg.KeyMutSpeculative && len(ids) == 1 && ids[0] == "F-KEYMUT" {
+			keyMut = true
+			stats.For(w.prop).Class("key-mutating-update-sent-speculatively")
+		} else {
+			for _, id := range ids {
+				stats.For(w.prop).Exclude(id)
+			}
+			return model.Result{}, stepGuarded, nil
 		}
-		return model.Result{}, stepGuarded, nil
 	}
 	next := w.m.Clone()
 	want := next.Apply(op)
-	if want.Weak || want.Spec && !w.cfg.Speculate && !op.TrySpec {
+	if !keyMut && (want.Weak || want.Spec && !w.cfg.Speculate && !op.TrySpec) {
 		stats.For(w.prop).WeakCase()
 		return want, stepWeak, nil
 	}
-	if want.Spec || w.cfg.ErrorsSpeculative && want.Err != "" {
+	if keyMut || want.Spec || w.cfg.ErrorsSpeculative && want.Err != "" {
 		// DynamoDB rejects this request for a reason no listed property
 		// demands. What the properties do demand (C08): if the implementation
 		// rejects it, nothing changes.
